@@ -1461,7 +1461,47 @@ fn gen_construct_points<const D: usize>(rng: &mut Rng) -> (Vec<VRec<D>>, &'stati
 fn construct_case<const D: usize>(rng: &mut Rng, out: &mut Out, st: &mut DistStats, all_combos: bool) {
     let (input, fam) = gen_construct_points::<D>(rng);
     out.count(&format!("construct/family/{}", fam));
-    let tol = *rng.pick(&[1.0 / 256.0 + 1.0 / 8192.0, 1e-9, 0.05, 1.0 / 1048576.0 * 4.5]);
+    let mut input = input;
+    let mut tol = *rng.pick(&[1.0 / 256.0 + 1.0 / 8192.0, 1e-9, 0.05, 1.0 / 1048576.0 * 4.5]);
+    // Coordinate / tolerance ratio regimes of the batch dedup: below 2^53 the hash grid serves the
+    // batch, from 2^53 the quantised buckets do, and a vertex whose ratio reaches 2^63 makes the
+    // quantised path hand the rest of the stream over to the quadratic scan.
+    match rng.usize(6) {
+        0 => {
+            // whole input scaled into the quantised-bucket regime
+            tol = *rng.pick(&[1e-10, 1e-9, 1e-12]);
+            let target = tol * 2f64.powi(54 + rng.usize(8) as i32);
+            let k = target.log2().ceil() as i32;
+            for r in input.iter_mut() {
+                for x in r.p.iter_mut() {
+                    *x *= 2f64.powi(k);
+                }
+            }
+            out.count("construct/regime/quantised");
+        }
+        1 => {
+            // a few far outliers (ratio >= 2^63) somewhere in the stream, one of them with a twin inside
+            // the tolerance: mid-stream fallback to the quadratic scan
+            tol = *rng.pick(&[1e-10, 1e-9, 1e-12]);
+            let far = tol * 2f64.powi(63 + rng.usize(4) as i32);
+            let n_out = 1 + rng.usize(3);
+            for k in 0..n_out {
+                let mut p = input[rng.usize(input.len())].p;
+                let ax = rng.usize(D);
+                p[ax] = far * (1.0 + k as f64) * if rng.bool() { 1.0 } else { -1.0 };
+                let at = rng.usize(input.len() + 1);
+                let data = Some(input.len() as i32);
+                input.insert(at, VRec { uuid: rng.uuid(), p, data });
+                if k == 0 && rng.bool() {
+                    let at2 = rng.usize(input.len() + 1);
+                    let data = Some(input.len() as i32);
+                    input.insert(at2, VRec { uuid: rng.uuid(), p, data });
+                }
+            }
+            out.count("construct/regime/fallback-outliers");
+        }
+        _ => out.count("construct/regime/hash-grid"),
+    }
     let pols = [Pol::Off, Pol::Exact, Pol::Eps(tol)];
     if all_combos {
         for (oname, _) in ORDERS.iter() {
